@@ -89,6 +89,8 @@ proof fn lemma_lane_shl(w: u64, b: int, j: int)
 
 //@include libfns.inc
 
+//@include exts_seam.inc
+
 // ---- trait-level contract of the packed k-mer types (the V <-> K seam, DESIGN.md §5.2/5.3) ---------
 // Verus sees only these clauses; Kani discharges each of them on the real impls of all 19 shipped types
 // (harness families k_len, k_get, k_set_mut, k_set_slice_mut, k_rc, k_extend_left/right, k_empty, k_eq_ord).
@@ -120,7 +122,21 @@ trait Mer: Sized {
         ensures r.minv(), r.mview() == rc_seq(self.mview());
 }
 
-trait Kmer: Mer + Copy {
+/// the sequence after shifting base v in from the given side
+spec fn ext_seq(s: Seq<u8>, v: u8, right: bool) -> Seq<u8> {
+    if right { s.subrange(1, s.len() as int).push(v) } else { seq![v] + s.subrange(0, s.len() - 1) }
+}
+
+/// canonical form: the lexicographically smaller of a sequence and its reverse complement. Left abstract
+/// here; the two facts used are proved by Kani on the real min_rc/min_rc_flip (family k_min_rc).
+uninterp spec fn canon(s: Seq<u8>) -> Seq<u8>;
+
+#[verifier::external_body]
+proof fn axiom_canon(s: Seq<u8>)
+    ensures canon(s) == s || canon(s) == rc_seq(s), canon(rc_seq(s)) == canon(s),
+{}
+
+trait Kmer: Mer + Copy + std::hash::Hash {
     spec fn kk() -> nat;
 
     /// every well-formed k-mer has exactly K bases, each < 4
@@ -136,11 +152,30 @@ trait Kmer: Mer + Copy {
 
     fn extend_left(&self, v: u8) -> (r: Self)
         requires self.minv(), v < 4,
-        ensures r.minv(), r.mview() == seq![v] + self.mview().subrange(0, Self::kk() - 1);
+        ensures r.minv(), r.mview() == ext_seq(self.mview(), v, false);
 
     fn extend_right(&self, v: u8) -> (r: Self)
         requires self.minv(), v < 4,
-        ensures r.minv(), r.mview() == self.mview().subrange(1, Self::kk() as int).push(v);
+        ensures r.minv(), r.mview() == ext_seq(self.mview(), v, true);
+
+    /// default `extend` (src/lib.rs): Kani families k_extend_left / k_extend_right check `extend(v, dir)` too
+    fn extend(&self, v: u8, dir: Dir) -> (r: Self)
+        requires self.minv(), v < 4,
+        ensures r.minv(), r.mview() == ext_seq(self.mview(), v, is_right(dir));
+
+    /// defaults `min_rc_flip`, `min_rc`, `is_palindrome` (src/lib.rs): Kani family k_min_rc
+    fn min_rc_flip(&self) -> (r: (Self, bool))
+        requires self.minv(),
+        ensures r.0.minv(), r.0.mview() == canon(self.mview()),
+            r.1 ==> r.0.mview() == rc_seq(self.mview()), !r.1 ==> r.0.mview() == self.mview();
+
+    fn min_rc(&self) -> (r: Self)
+        requires self.minv(),
+        ensures r.minv(), r.mview() == canon(self.mview());
+
+    fn is_palindrome(&self) -> (r: bool)
+        requires self.minv(),
+        ensures r == (self.mview() == rc_seq(self.mview()));
 
     fn from_bytes(bytes: &[u8]) -> (r: Self)
         requires bytes@.len() >= Self::kk(), forall|i: int| 0 <= i < Self::kk() ==> #[trigger] bytes@[i] < 4,
